@@ -110,6 +110,10 @@ class HaltReason(Enum):
     BREAKPOINT = 5
 
 
+# LCASE$ / UCASE$ convert the letters A-Z and nothing else
+ASCII_LOWER = {c: c + 32 for c in range(ord('A'), ord('Z') + 1)}
+ASCII_UPPER = {c + 32: c for c in range(ord('A'), ord('Z') + 1)}
+
 # the largest dynamic array (in cells) DIM will allocate
 MAX_DYNAMIC_ARRAY_CELLS = 16 * 1024 * 1024
 
@@ -1172,7 +1176,10 @@ class QvmCpu:
 
     def _exec_lcase(self):
         s = self.pop(CellType.STRING)
-        self.push(CellType.STRING, s.lower())
+        # only the letters A-Z have another case; the accented letters
+        # of code page 437 stay as they are (python's lower() would
+        # also turn a one-character string into two for some of them)
+        self.push(CellType.STRING, s.translate(ASCII_LOWER))
 
     def _exec_ltrim(self):
         s = self.pop(CellType.STRING)
@@ -1626,7 +1633,7 @@ class QvmCpu:
 
     def _exec_ucase(self):
         s = self.pop(CellType.STRING)
-        self.push(CellType.STRING, s.upper())
+        self.push(CellType.STRING, s.translate(ASCII_UPPER))
 
     def _exec_xor(self):
         self._bitwise(lambda a, b: a ^ b)
